@@ -17,7 +17,7 @@ RULE = ('directed corpus + full grid sign x magnitude pool x 22 prefixes (+forei
         'unit systems x return_int, then seeded random magnitudes; QemuImgInfo human texts composed '
         'from size spellings. non-trivial = admissible text with a prefix or a bit unit or a '
         'fractional magnitude, or an inadmissible text; distinct by (text, system, return_int)')
-REQUIRED_CLAUSES = ['under-warnings-as-errors', 'concurrent-calls-answer-as-alone', 'under-lazy-translation', 'documented-keyword-call', 'float-result', 'int-result-exact', 'must-raise-ValueError',
+REQUIRED_CLAUSES = ['equal-valued-arguments-in-any-order', 'valid-calls-after-rejected-calls-answer-as-before', 'under-unlimited-int-digits', 'under-warnings-as-errors', 'concurrent-calls-answer-as-alone', 'under-lazy-translation', 'documented-keyword-call', 'float-result', 'int-result-exact', 'must-raise-ValueError',
                     'qemu-size', 'unknown-system']
 ASSUMPTIONS = ['exact answer computed with fractions.Fraction from the generator components',
                'float results are compared within 4 ulp; integer results exactly, except where the '
